@@ -380,6 +380,7 @@ def corner_programs():
     # mod() over cells that are numbers (negative too), empty, blank, text, or not there
     M = [HDR[:], ["r1", "12", "7", "a", "b"], ["r2", "7", "12", "a", "b"], ["r3", "", "4", "a", "b"], ["r4", "-3", "", "a", "b"], ["r5", "  ", "0", "a", "b"], ["r6"],
          ["r7", "0", "-4", "a", "b"], ["r8", "abc", "9", "a", "b"], ["r9", "30"]]
+    F0 = [HDR[:], ["r1", "1", "2", "t", "u"], ["r2", "3", "4", "a", "b"], ["r3", "5", "6", "t", "a"], ["r4", "7", "8", "a", "t"]]
     DP = [HDR[:], ["r1", "1", "5", "a", "b"], ["r2", "9", "7", "a", "b"], ["r3", "2", "7", "a", "b"], ["r4", "9", "5", "a", "b"], ["r5", "1", "5", "a", "b"], ["r6", "7", "9", "a", "b"], ["r7", "3", "7", "a", "b"]]
     return [
         # qualified assignments under a tracking key: the latch holds the first value, onchange objects to a repeat, the other key is kept
@@ -395,6 +396,8 @@ def corner_programs():
         # count.d(cond) keeps its two counts under the keys True / False: @d.False reads the count of the lines where the condition failed
         P([("@v5 = count.d6(gt(#n, 2))", "(CAct (Agg (CountIf 5 6 (BCmp Gt (NHdr 1) (NLit 2)))))"), ("@v7 = @d6.False", f"(CAct (AssignN 7 (NVarK 6 {ulit('False')})))"),
            ('push("k1", @d6.True)', f"(CAct (PushN 1 (NVarK 6 {ulit('True')})))"), ('push("k2", @d6.False)', f"(CAct (PushN 2 (NVarK 6 {ulit('False')})))")]),
+        # first(): a value first seen on line 0 (the header row, scanned) and seen again later keeps line 0
+        P([("first.d1(#t)", "(CAgg (First 1 3%nat))"), ("yes()", "(CB BYes)")], scan="0*", rows=F0),
         P([("mod(#n, 2) == 0", "(CMod false 1%nat 2 0)")], rows=M),
         P([("not(above(mod(#n, 2), 0))", "(CMod true 1%nat 2 0)")], rows=M),
         P([("mod(#m, 3) == 1", "(CMod false 2%nat 3 1)"), ("no()", "(CB BNo)")], rows=M, AND=False),
